@@ -77,7 +77,7 @@ def make_case(ctx, g, prior=None):
     fails = []
     if prior is None:
         w = World()
-        b = DocBuilder(g, w, malformed=0.0, repeat_id=0.45, anon=0.5, foreign=0.05)
+        b = DocBuilder(g, w, malformed=0.0, repeat_id=0.45, anon=0.5, foreign=0.05, refused=0.15)
         d, scopes = b.random_document(n_records=g.rng.randint(2, 9), n_bundles=0)
         if g.chance(0.15) and b.cross_kind_cluster(d):
             ctx.count("one-identifier-two-merged-kinds")
